@@ -2285,6 +2285,14 @@ def check_enc(cx):
     if not (info and impl):
         return finish(cx, "")
     items = enum_family(cfg["fam"], cfg["level"][0 if quick else 1])
+    if cx.prop == "C04":
+        # the family of the kernel-checked theorem C04.two_operand_forms (list-level texts) is what the String renderer writes for the
+        # same entries, text by text (they are part of the family run here)
+        rc_k, out_k, err_k = alv.run_driver(alv.driver_path(), ["KF4"])
+        kf = out_k[0].split() if rc_k == 0 and out_k else []
+        cx.oblige("the family of the kernel-checked theorem is part of the family run on the C code (driver op KF4: %s)" % " ".join(kf),
+                  len(kf) == 3 and kf[0] == kf[1] and int(kf[0]) > 14000 and kf[2] == "same", err_k[-300:])
+        missing4 = None
     if cx.prop == "C01":
         # the family of the kernel-checked theorem C01.every_register_form (list-level texts) is the family run here, text by text
         rc_k, out_k, err_k = alv.run_driver(alv.driver_path(), ["KF"])
@@ -2630,7 +2638,8 @@ ENC_THEOREMS = {
             "AL.Properties.C03.aluOps_digits", "AL.Lemmas.Alu.alu_bytes", "AL.Lemmas.Alu.aluKeys_classified", "AL.Lemmas.AluText.alu_line", "AL.Spec.AluImm.aluRead_aluBytes",
             "AL.Lemmas.assembleImm_dword", "AL.Lemmas.assembleImm_qword", "AL.Lemmas.assembleImm_reduced", "AL.Lemmas.assembleConst_pad",
             "AL.Lemmas.strtoul_dec", "AL.Lemmas.strtoul_hex", "AL.Lemmas.strtoul_neg_dec", "AL.Lemmas.strtoul_neg_hex"],
-    "C04": ["AL.Properties.Sweep.c04_sweep", "AL.Properties.C04.vex2_is_vex3", "AL.Properties.C04.vex_prefix_fields", "AL.Properties.C04.vecpair_fields", "AL.Properties.C01.regpair_fields"],
+    "C04": ["AL.Properties.C04.two_operand_forms", "AL.Properties.Kernel.c04_two_operand_forms", "AL.Properties.Kernel.checkT_sound", "AL.Properties.Kernel.cell4_ok",
+            "AL.Properties.Sweep.c04_sweep", "AL.Properties.C04.vex2_is_vex3", "AL.Properties.C04.vex_prefix_fields", "AL.Properties.C04.vecpair_fields", "AL.Properties.C01.regpair_fields"],
     "C05": ["AL.Properties.Sweep.c05_sweep", "AL.Properties.C05.rel_field_reads_back", "AL.Properties.C05.written_displacement", "AL.Properties.C03.written_number_value_padded",
             "AL.Properties.C05.rel_branch_every_d", "AL.Properties.C05.rel_branch_text_dec", "AL.Properties.C05.rel_branch_text_neg_dec",
             "AL.Properties.C05.rel_branch_text_hex", "AL.Properties.C05.rel_branch_text_neg_hex", "AL.Lemmas.BranchText.branch_line", "AL.Lemmas.Branch.relKeys_classified", "AL.Lemmas.Branch.j_bytes", "AL.Lemmas.Branch.c_bytes", "AL.Lemmas.Branch.r_bytes"],
@@ -3342,7 +3351,7 @@ def hex_tokens(text):
 
 C20_THEOREMS = ["usage_error_exits", "exit_zero_iff", "option_calls", "option_calls_spec", "parseFlags_opt", "applyLong_opt", "getlines_join", "file_mode_is_library",
                  "stdin_equals_file", "stdinLoop_plain", "stdinLoop_counting",
-                 "listing_reads_back", "chunk_dump_reads_back", "p_with_fitting_prints_the_code"]
+                 "listing_reads_back", "chunk_dump_reads_back", "p_with_fitting_prints_the_code", "p_plain_file_prints_the_code"]
 
 
 def check_C20(cx):
